@@ -7,8 +7,7 @@
 #include <time.h>
 #include <sys/mman.h>
 
-Sim g_sim;
-__thread int t_task = -1;
+Sim g_sim = { .cur = -1 };
 FILE *g_out;
 
 const char *g_probe_names[] = {
@@ -123,6 +122,94 @@ void sim_trace(int kind, int64_t a, int64_t b)
 			(long long)a, (long long)b);
 }
 
+/* -------------------------------------------------------- context switch */
+/* Two interchangeable mechanisms.  Default: ucontext fibers on simulator-owned
+ * stacks (a switch costs ~0.3 us).  With GMSIM_THREADS (tsan/msan variants):
+ * real pthreads parked on a futex baton, exactly one runnable at a time. */
+static void task_entry(Task *me);
+static uint8_t *g_stacks[SIM_MAX_TASKS];
+
+#ifdef GMSIM_THREADS
+static void *thread_main(void *arg)
+{
+	Task *me = arg;
+	baton_wait(&me->turn);
+	task_entry(me);
+	return NULL;
+}
+static void ctx_create(Task *t)
+{
+	pthread_attr_t at;
+	pthread_attr_init(&at);
+	pthread_attr_setstack(&at, t->stack, SIM_STACK_SIZE);
+	if (pthread_create(&t->th, &at, thread_main, t) != 0) die("pthread_create");
+	pthread_attr_destroy(&at);
+}
+static uint32_t *turn_of(int id) { return id < 0 ? &g_sim.main_turn : &g_sim.tasks[id].turn; }
+static void ctx_switch(int from, int to, int dying)
+{
+	baton_pass(turn_of(to));
+	if (!dying) baton_wait(turn_of(from));
+}
+static void ctx_join_all(void)
+{
+	for (int i = 0; i < g_sim.ntasks; i++) pthread_join(g_sim.tasks[i].th, NULL);
+}
+#else
+#include <ucontext.h>
+#if defined(__SANITIZE_ADDRESS__)
+void __sanitizer_start_switch_fiber(void **fake_stack_save, const void *bottom, size_t size);
+void __sanitizer_finish_switch_fiber(void *fake_stack_save, const void **bottom_old, size_t *size_old);
+#define FIBER_ANNOTATE 1
+#endif
+typedef struct { ucontext_t uc; void *fake; const void *bottom; size_t size; } Ctx;
+static Ctx g_ctx[SIM_MAX_TASKS + 1];            /* [0] = main, [i+1] = task i */
+static Ctx *g_switched_from;
+static Ctx *ctx_of(int id) { return &g_ctx[id + 1]; }
+
+static void after_switch(Ctx *me)
+{
+#ifdef FIBER_ANNOTATE
+	const void *b; size_t n;
+	__sanitizer_finish_switch_fiber(me ? me->fake : NULL, &b, &n);
+	if (g_switched_from && !g_switched_from->bottom) { g_switched_from->bottom = b; g_switched_from->size = n; }
+#else
+	(void)me;
+#endif
+}
+static void fiber_main(unsigned lo, unsigned hi)
+{
+	Task *me = (Task *)(((uintptr_t)hi << 32) | (uintptr_t)lo);
+	after_switch(NULL);
+	task_entry(me);
+	die("fiber returned");
+}
+static void ctx_create(Task *t)
+{
+	Ctx *c = ctx_of(t->id);
+	memset(c, 0, sizeof(*c));
+	getcontext(&c->uc);
+	c->uc.uc_stack.ss_sp = t->stack;
+	c->uc.uc_stack.ss_size = SIM_STACK_SIZE;
+	c->uc.uc_link = NULL;
+	c->bottom = t->stack; c->size = SIM_STACK_SIZE;
+	uintptr_t p = (uintptr_t)t;
+	makecontext(&c->uc, (void (*)(void))fiber_main, 2, (unsigned)(p & 0xffffffffu), (unsigned)(p >> 32));
+}
+static void ctx_switch(int from, int to, int dying)
+{
+	Ctx *f = ctx_of(from), *t = ctx_of(to);
+	g_switched_from = f;
+#ifdef FIBER_ANNOTATE
+	__sanitizer_start_switch_fiber(dying ? NULL : &f->fake, t->bottom, t->size);
+#endif
+	if (dying) { setcontext(&t->uc); die("setcontext"); }
+	swapcontext(&f->uc, &t->uc);
+	after_switch(f);
+}
+static void ctx_join_all(void) { }
+#endif
+
 /* ------------------------------------------------------------- scheduler */
 static int eligible(Task *t)
 {
@@ -195,8 +282,7 @@ static void handoff_from(Task *me)
 	s->cur = next;
 	s->switches++;
 	s->ileave = mix64(s->ileave ^ ((uint64_t)next << 8) ^ (uint64_t)me->id ^ (s->step << 16));
-	baton_pass(&s->tasks[next].turn);
-	baton_wait(&me->turn);
+	ctx_switch(me->id, next, 0);
 	me->state = ST_RUNNABLE;
 	me->quanta++;
 }
@@ -211,7 +297,7 @@ static void step_tick(void)
 	}
 }
 
-Task *sim_cur(void) { return t_task >= 0 ? &g_sim.tasks[t_task] : NULL; }
+Task *sim_cur(void) { return g_sim.cur >= 0 ? &g_sim.tasks[g_sim.cur] : NULL; }
 
 void sim_yield(int kind, int64_t a, int64_t b)
 {
@@ -251,11 +337,8 @@ void sim_sleep(int64_t ns)
 
 void sim_abort_run(void) { g_sim.abort = 1; }
 
-static void *thread_main(void *arg)
+static void task_entry(Task *me)
 {
-	Task *me = arg;
-	baton_wait(&me->turn);
-	t_task = me->id;
 	me->state = ST_RUNNABLE;
 	sim_trace(EV_START, me->id, me->node);
 	me->fn(me->arg);
@@ -266,12 +349,9 @@ static void *thread_main(void *arg)
 	me->state = ST_DONE;
 	int next = pick_next();
 	s->cur = next;
-	if (next < 0) baton_pass(&s->main_turn);
-	else { s->switches++; baton_pass(&s->tasks[next].turn); }
-	return NULL;
+	if (next >= 0) s->switches++;
+	ctx_switch(me->id, next, 1);
 }
-
-static uint8_t *g_stacks[SIM_MAX_TASKS];
 
 int sim_spawn(const char *name, int node, void (*fn)(void *), void *arg)
 {
@@ -291,11 +371,7 @@ int sim_spawn(const char *name, int node, void (*fn)(void *), void *arg)
 	/* Same garbage in every run and in every replay: poison the part of the
 	 * stack the library can plausibly reach with a fixed pattern. */
 	memset(t->stack + SIM_STACK_SIZE - (768u << 10), 0xA5, 768u << 10);
-	pthread_attr_t at;
-	pthread_attr_init(&at);
-	pthread_attr_setstack(&at, t->stack, SIM_STACK_SIZE);
-	if (pthread_create(&t->th, &at, thread_main, t) != 0) die("pthread_create");
-	pthread_attr_destroy(&at);
+	ctx_create(t);
 	return id;
 }
 
@@ -306,10 +382,9 @@ void sim_run(void)
 	int next = pick_next();
 	if (next >= 0) {
 		s->cur = next;
-		baton_pass(&s->tasks[next].turn);
-		baton_wait(&s->main_turn);
+		ctx_switch(-1, next, 0);
 	}
-	for (int i = 0; i < s->ntasks; i++) pthread_join(s->tasks[i].th, NULL);
+	ctx_join_all();
 	s->cur = -1;
 }
 
